@@ -118,6 +118,13 @@ def layout(case, prep, g):
             for (s2, sh), blob in src.items():
                 if s2 == sv:
                     files[(sv, sh)] = blob
+        if case.get("extra"):
+            # a SECOND copy of one share number, in a version of its own, on the first server that never held
+            # a share (a share re-homed while its server was away, which then came back)
+            sh, j = case["extra"]
+            spare = [sv for sv in range(case["S"]) if sv not in prep["holders"]]
+            if spare and spare[0] not in dead:
+                files[(spare[0], sh)] = ms.rehome(_by_shnum(prep, j)[sh], spare[0], prep["cap_w"])
     else:
         # "spread": share number i sits on the server at position place[i] of the permuted server
         # list of this storage index and carries version vers[i] (0 = that server is unavailable)
@@ -246,7 +253,19 @@ def execute(case, prefix, seed):
             new = pattern(10 * seed + 9, 33)
             node = g.clients[0].create_node_from_uri(prep["cap_w"])
             try:
-                b = g.wait(node.overwrite(MutableData(new)), explore=True)
+                if case.get("pubop") == "update":
+                    # an in-place edit of the best version (MDMF: Publish.update, SDMF: download + re-publish)
+                    bv = g.wait(node.get_best_mutable_version(), explore=True)
+                    if not bv or bv[0][0] != "ok":
+                        b = bv
+                    else:
+                        mv = bv[0][1]
+                        base = [c for vid, c in contents_by_vid.items() if vid[0] == mv.get_sequence_number()]
+                        edit = b"EDIT!"
+                        new = (base[0][:7] + edit + base[0][7 + len(edit):]) if base else new
+                        b = g.wait(mv.update(MutableData(edit), 7), explore=True)
+                else:
+                    b = g.wait(node.overwrite(MutableData(new)), explore=True)
             except grid.HarnessError as e:
                 viol.append(("publish-livelock", str(e)[:200]))
                 b = None
@@ -336,20 +355,26 @@ def chunk(tasks, seed, d_bound, max_exec):
     return res
 
 
-def assignments(fmt, S, h, phase, seed, warm=False, batch=False):
+def assignments(fmt, S, h, phase, seed, warm=False, batch=False, pubop=None):
     prep = prepare(fmt, S, h, seed)
     per = []
     for sv in range(S):
         if sv in prep["holders"]:
             opts = [["hold", j] for j in range(1, h + 1)] + [["dead"]]
-            if phase == "publish":
+            if phase == "publish" and pubop != "update":
+                # (no replaying servers under an in-place edit: what the edit is applied to is then up to
+                # the liar, and the contents to expect afterwards would be a guess)
                 opts += [["replay", j] for j in range(1, h)]
         else:
             opts = [["empty"], ["dead"]]
         per.append(opts)
     out = []
+    extras = [None]
+    if pubop == "update" and S > N:
+        extras = [[sh, j] for sh in range(N) for j in range(1, h + 1)]
     for combo in itertools.product(*per):
-        out.append({"fmt": fmt, "S": S, "h": h, "phase": phase, "assign": list(combo), "warm": warm, "batch": batch})
+        for extra in extras:
+            out.append({"fmt": fmt, "S": S, "h": h, "phase": phase, "assign": list(combo), "warm": warm, "batch": batch, "pubop": pubop, "extra": extra})
     return out
 
 
@@ -376,11 +401,13 @@ def run(tier, seed):
         plan = [(f, 4, 3, "read", 1) for f in ("SDMF", "MDMF")] + [("MDMF", 6, 2, "read-warm", 0), ("SDMF", 9, 2, "spread-warm", 0)]
         plan += [("SDMF", 6, 2, "read-warm-batch", 0), ("MDMF", 5, 3, "read-warm-batch", 0), ("SDMF", 6, 2, "read-batch", 0), ("MDMF", 9, 2, "spread-warm-batch", 0), ("SDMF", 4, 2, "publish-batch", 0)]
         plan += [("SDMF", 4, 2, "publish", 1), ("MDMF", 4, 2, "publish", 0), ("SDMF", 4, 3, "publish", 0), ("MDMF", 5, 2, "publish", 0)]
+        plan += [("MDMF", 4, 3, "publish-update", 0), ("MDMF", 5, 2, "publish-update", 0), ("SDMF", 4, 2, "publish-update", 0)]
     else:
         plan = [(f, 4, 3, "read", 2) for f in ("SDMF", "MDMF")] + [("SDMF", 5, 4, "read-warm", 1), ("MDMF", 6, 4, "read-warm", 1)]
         plan += [("SDMF", 4, 6, "read", 1), ("MDMF", 5, 5, "read-warm", 0), ("SDMF", 6, 3, "read-warm", 1)]
         plan += [("SDMF", 10, 2, "spread-warm-dead", 0), ("MDMF", 10, 3, "spread-warm", 0), ("SDMF", 12, 2, "spread-cold", 0), ("MDMF", 9, 2, "spread-warm", 1)]
         plan += [("SDMF", 6, 3, "read-warm-batch", 1), ("MDMF", 5, 4, "read-warm-batch", 1), ("MDMF", 8, 2, "read-batch", 0), ("SDMF", 10, 3, "spread-warm-batch", 0), ("MDMF", 4, 3, "publish-batch", 0), ("SDMF", 5, 2, "publish-batch", 1)]
+        plan += [("MDMF", 4, 4, "publish-update", 0), ("MDMF", 5, 3, "publish-update", 0), ("MDMF", 5, 2, "publish-update", 1), ("SDMF", 4, 3, "publish-update", 0), ("MDMF", 6, 2, "publish-update", 0)]
         plan += [("SDMF", 4, 3, "publish", 1), ("MDMF", 4, 3, "publish", 0), ("SDMF", 4, 4, "publish", 0), ("MDMF", 5, 3, "publish", 0), ("SDMF", 6, 2, "publish", 1), ("SDMF", 4, 6, "publish", 0)]
     res = common.Result()
     desc = []
@@ -398,7 +425,7 @@ def run(tier, seed):
             if phase.startswith("spread"):
                 a = spread_cases(fmt, S, h, "warm" in phase, "dead" in phase, seed, batch="batch" in phase)
             else:
-                a = assignments(fmt, S, h, phase.split("-")[0], seed, warm="-warm" in phase, batch="batch" in phase)
+                a = assignments(fmt, S, h, phase.split("-")[0], seed, warm="-warm" in phase, batch="batch" in phase, pubop="update" if "update" in phase else None)
             cases += a
             desc.append("%s S=%d h=%d %s: %d assignments at d<=%d" % (fmt, S, h, phase, len(a), d))
         res.merge(common.pmap(chunk, cases, (seed, d, 4000), chunks=max(1, min(len(cases), common.NWORKERS * 8))))
